@@ -1660,6 +1660,7 @@ class Irc(IrcCommandDispatcher, log.Firewalled):
         elif conf.supybot.networks.get(self.network).sasl.required():
             log.error('None of the configured SASL mechanisms succeeded, '
                     'aborting connection.')
+            self.driver.reconnect(wait=True)
         else:
             self.sasl_current_mechanism = None
             self.state.fsm.on_sasl_auth_finished(self, msg)
